@@ -192,6 +192,94 @@ type errClassTest struct {
 	pos       token.Pos
 }
 
+// predicateHelperTests: calls in fn to a predicate of the repository
+// (func(error) bool) that answers true only where one of its own not-exist
+// tests is true; such a call is a not-exist test of fn, effective when one of
+// the inner tests is (their effectiveness already accounts for the error types
+// the callers pass).
+func predicateHelperTests(c *Ctx, fn *ssa.Function) []errClassTest {
+	var out []errClassTest
+	ssau.ForEachInstr(fn, false, func(in ssa.Instruction) {
+		call, ok := in.(*ssa.Call)
+		if !ok {
+			return
+		}
+		h := call.Common().StaticCallee()
+		if h == nil || h.Blocks == nil || !c.P.IsRepoFunc(h) || len(h.Params) != 1 || h.Signature.Results().Len() != 1 {
+			return
+		}
+		if b, isB := h.Signature.Results().At(0).Type().Underlying().(*types.Basic); !isB || b.Kind() != types.Bool {
+			return
+		}
+		if _, isIface := h.Params[0].Type().Underlying().(*types.Interface); !isIface {
+			return
+		}
+		var inner []errClassTest
+		for _, t := range classTests(c, h) {
+			if t.class == "notexist" {
+				inner = append(inner, t)
+			}
+		}
+		if len(inner) == 0 {
+			return
+		}
+		cd := ssau.ControlDeps(h)
+		isTest := func(v ssa.Value) bool {
+			for _, t := range inner {
+				if t.cond == v {
+					return true
+				}
+			}
+			return false
+		}
+		var okVal func(v ssa.Value, blk *ssa.BasicBlock, d int) bool
+		okVal = func(v ssa.Value, blk *ssa.BasicBlock, d int) bool {
+			if ssau.IsConstBool(v, false) || isTest(v) {
+				return true
+			}
+			if ssau.IsConstBool(v, true) {
+				for _, dp := range ssau.TransitiveControlDeps(cd, blk) {
+					if isTest(dp.If().Cond) && dp.Then {
+						return true
+					}
+				}
+				return false
+			}
+			if phi, isPhi := v.(*ssa.Phi); isPhi && d < 4 {
+				for i, e := range phi.Edges {
+					if !okVal(e, phi.Block().Preds[i], d+1) {
+						// a constant true arriving straight over the true edge of a test
+						p := phi.Block().Preds[i]
+						if iff, isIf := p.Instrs[len(p.Instrs)-1].(*ssa.If); isIf && ssau.IsConstBool(e, true) && isTest(iff.Cond) && p.Succs[0] == phi.Block() {
+							continue
+						}
+						return false
+					}
+				}
+				return true
+			}
+			// test && more: true only if the test was
+			if bo, isBo := v.(*ssa.BinOp); isBo && bo.Op == token.AND {
+				return okVal(bo.X, blk, d+1) || okVal(bo.Y, blk, d+1)
+			}
+			return false
+		}
+		for _, ret := range ssau.ReturnsOf(h) {
+			if !okVal(ret.Results[0], ret.Block(), 0) {
+				return
+			}
+		}
+		eff := false
+		for _, t := range inner {
+			if t.effective {
+				eff = true
+			}
+		}
+		out = append(out, errClassTest{class: "notexist", effective: eff, why: "the predicate " + h.Name() + " (true only under a not-exist test of its own)", cond: call, pos: call.Pos()})
+	})
+	return out
+}
+
 // classTests finds the error-class tests inside fn on values derived from
 // errVal.
 func classTests(c *Ctx, fn *ssa.Function) []errClassTest {
@@ -995,6 +1083,7 @@ func c15Personal(c *Ctx) {
 	}
 	region := blocksReachable(persC.Block(), succ) // blocks reachable when the personal load failed
 	tests := classTests(c, fn)
+	tests = append(tests, predicateHelperTests(c, fn)...)
 	cd := ssau.ControlDeps(fn)
 	nTol := 0
 	anyEffective := false
